@@ -4,10 +4,11 @@ ONLY property theorems, non-vacuity examples and witnesses live here; helper lem
 Proofs/Lemmas/Store.lean.  Model: Pywbem/Model/Store.lean (mirrors the code after the `fix:` commits),
 reference map: Pywbem/Model/StoreSpec.lean.
 
-Full statement of the refinement (proved here under `TameRun`: no association classes, or association
-requests whose reference values stay inside the request namespace; for association instances living
-in several namespaces the same equation is checked at run time by the driver on every history of K,
-field "specAgrees"):
+Statement of the refinement (proved here under `TameRun`: no association classes and arbitrary requests, or a
+coherent schema – a class name denotes the same class in every namespace –, NULL defaults of reference
+properties and requests whose reference-typed properties hold paths or NULL; association instances living in
+several namespaces are included.  The driver additionally evaluates the same equation at run time on every
+history of K, field "specAgrees"):
 
     ∀ r ops, Fresh r →
       (run r ops).2.map normOut = (StoreSpec.run (abs r) ops).2 ∧ abs (run r ops).1 = (StoreSpec.run (abs r) ops).1
@@ -25,43 +26,44 @@ structure Fresh (r : Repo) : Prop where
   nsUniq : NsUnique r
   empty : ∀ e ∈ r.nss, e.insts = []
 
-/-- **Refinement (partial).**  For every history of Create / Modify / Delete / Get / EnumerateInstances /
-    EnumerateInstanceNames requests – valid or not, any namespaces, any paths – the outcomes of the model, with
-    paths normalised (names lower-cased, keybindings sorted), are the outcomes of the reference map, and the
-    final store is the final reference map.
-    Partial = hypothesis `TameRun`: the schema has no association classes (then the requests are arbitrary), or
-    reference properties have NULL defaults and the reference values in the Create/Modify requests are paths
-    or NULL and name no other namespace than the request's (association end-point validation included,
-    instances living in several namespaces excluded). -/
-theorem C10_refines_spec_partial (r : Repo) (ops : List Op) (hf : Fresh r) (ht : TameRun r ops) :
+/-- **Refinement.**  For every history of Create / Modify / Delete / Get / EnumerateInstances /
+    EnumerateInstanceNames requests – valid or not, any namespaces, any paths, association instances living in
+    several namespaces included – the outcomes of the model, with paths normalised (names lower-cased,
+    keybindings sorted), are the outcomes of the reference map, and the final store is the final reference map.
+    Hypothesis `TameRun`: the schema has no association classes (then the requests are arbitrary), or the
+    schema is coherent (a class name denotes the same class in every namespace that has it), defaults of
+    reference properties are NULL, and in the Create/Modify requests exactly the reference-typed properties
+    hold paths (or NULL) – what every `CIMProperty` object satisfies. -/
+theorem C10_refines_spec (r : Repo) (ops : List Op) (hf : Fresh r) (ht : TameRun r ops) :
     (Pywbem.Model.Store.run r ops).2.map normOut = (Pywbem.Model.StoreSpec.run (abs r) ops).2
       ∧ abs (Pywbem.Model.Store.run r ops).1 = (Pywbem.Model.StoreSpec.run (abs r) ops).1 := by
-  have h := sim_run' ops r ht (inv_empty r hf.nsUniq hf.empty)
+  have h := sim_run'' ops r ht (inv_empty r hf.nsUniq hf.empty)
   exact ⟨h.1, h.2.1⟩
 
 /-- one step of the same statement, from any state satisfying the store invariant -/
-theorem C10_step_refines_spec_partial (r : Repo) (op : Op) (ht : Tame r op) (hinv : Inv r) :
+theorem C10_step_refines_spec (r : Repo) (op : Op) (ht : Tame r op) (hinv : Inv r) :
     normOut (step r op).2 = (sstep (abs r) op).2 ∧ abs (step r op).1 = (sstep (abs r) op).1 := by
-  have h := sim_step' r op ht hinv
+  have h := sim_step'' r op ht hinv
   exact ⟨h.1, h.2.1⟩
 
-/-- **Keys are unique and consistent (partial, same hypothesis).**  After any history, in every namespace: no two
-    stored instances have equal keys (up to case and order); the path kept inside a stored instance equals the
-    key it is stored under; the key carries no host and names the namespace it is stored in; the instance has
-    every key property of its creation class; association instances reference their own namespace only. -/
-theorem C10_store_invariant_partial (r : Repo) (ops : List Op) (hf : Fresh r) (ht : TameRun r ops) :
+/-- **Keys are unique and consistent (same hypothesis).**  After any history, in every namespace: no two stored
+    instances have equal keys (up to case and order); the path kept inside a stored instance equals the key it
+    is stored under; the key carries no host and names the namespace it is stored in; the instance has every key
+    property of its creation class; every namespace named by a reference value of an association instance exists. -/
+theorem C10_store_invariant (r : Repo) (ops : List Op) (hf : Fresh r) (ht : TameRun r ops) :
     ∀ e ∈ (Pywbem.Model.Store.run r ops).1.nss,
       e.insts.Pairwise (fun a b => normPath a.key ≠ normPath b.key) ∧
       (∀ s ∈ e.insts, normPath s.path = normPath s.key ∧ s.key.host = none ∧
         s.key.ns.map lower = some (lower e.name) ∧ lower s.inst.cls = lower s.key.cls ∧
         ∀ c, findCls e.classes s.key.cls = some c →
           (∀ d ∈ keyDecls c, (findProp s.inst.props d.name).isSome = true) ∧
-          (c.isAssoc = true → multiNs s.inst.props e.name = [])) := by
-  have h := (sim_run' ops r ht (inv_empty r hf.nsUniq hf.empty)).2.2
+          (c.isAssoc = true → ∀ p ∈ s.inst.props, ∀ m, refNs p.val = some m → m.isEmpty = false →
+            (findNs (Pywbem.Model.Store.run r ops).1 m).isSome = true)) := by
+  have h := (sim_run'' ops r ht (inv_empty r hf.nsUniq hf.empty)).2.2
   intro e he
   have hi := h.entries e he
   exact ⟨hi.uniq, fun s hs => ⟨hi.pathKey s hs, hi.hostNone s hs, hi.nsOk s hs, hi.instCls s hs,
-    fun c hc => ⟨hi.hasKeys s hs c hc, hi.localRefs s hs c hc⟩⟩⟩
+    fun c hc => ⟨hi.hasKeys s hs c hc, hi.refVals s hs c hc⟩⟩⟩
 
 /-- non-vacuity of the hypotheses: a two-namespace repository with a key class -/
 def demoCls : Cls :=
@@ -79,39 +81,84 @@ example : Fresh demoRepo ∧ NoAssoc demoRepo ∧ ∀ ops, TameRun demoRepo ops 
   · unfold NsUnique demoRepo; decide
   · intro e he; simp [demoRepo] at he; rcases he with rfl | rfl <;> rfl
 
-/-- non-vacuity of the association branch of `TameRun`: an association class, and a request creating an
-    association between two instances of the request namespace -/
+/-- non-vacuity of the association branch of `TameRun`: two namespaces loaded from the same schema with an
+    association class, and a request creating an association whose ends lie in the *other* namespace -/
 def demoAssoc : Cls :=
   { name := "TST_L".toList, super := none, isAssoc := true,
     props := [{ name := "parent".toList, ty := "reference".toList, isArr := false, isKey := true, dflt := .null },
               { name := "child".toList, ty := "reference".toList, isArr := false, isKey := true, dflt := .null }] }
 def demoRepoA : Repo :=
-  { nss := [{ name := "root/a".toList, classes := [demoCls, demoAssoc], insts := [] }], dflt := "root/a".toList }
-def demoEnd (k : String) : Val :=
-  .one (.ref { cls := "TST_P".toList, ns := some "ROOT/A".toList, host := none, keys := [("name".toList, .str k.toList)] })
+  { nss := [{ name := "root/a".toList, classes := [demoCls, demoAssoc], insts := [] },
+            { name := "Root/B".toList, classes := [demoCls, demoAssoc], insts := [] }], dflt := "root/a".toList }
+def demoEndPath0 (k : String) : Path0 :=
+  { cls := "TST_P".toList, ns := some "ROOT/B".toList, host := none, keys := [("name".toList, Scalar.str k.toList)] }
+def demoEnd (k : String) : Val := Val.one (KV.ref (demoEndPath0 k))
 def demoCreateAssoc : Op :=
   .create none { cls := "TST_L".toList,
                  props := [{ name := "parent".toList, ty := "reference".toList, isArr := false, val := demoEnd "x" },
                            { name := "child".toList, ty := "reference".toList, isArr := false, val := demoEnd "y" }] }
 
 example : Fresh demoRepoA ∧ ¬ NoAssoc demoRepoA ∧ TameRun demoRepoA [demoCreateAssoc] := by
-  refine ⟨⟨?_, ?_⟩, ?_, Or.inr ⟨?_, ?_⟩⟩
+  have hmem : ∀ e ∈ demoRepoA.nss, e.classes = [demoCls, demoAssoc] := by
+    intro e he; simp [demoRepoA] at he; rcases he with rfl | rfl <;> rfl
+  refine ⟨⟨?_, ?_⟩, ?_, Or.inr ⟨?_, ?_, ?_⟩⟩
   · unfold NsUnique demoRepoA; decide
-  · intro e he; simp [demoRepoA] at he; subst he; rfl
+  · intro e he; simp [demoRepoA] at he; rcases he with rfl | rfl <;> rfl
   · intro h
     have := h { name := "root/a".toList, classes := [demoCls, demoAssoc], insts := [] } (by simp [demoRepoA])
       demoAssoc (by simp)
     simp [demoAssoc] at this
-  · intro e he c hc d hd hty
-    simp [demoRepoA] at he; subst he
+  · intro e he c hc
+    rw [hmem e he] at hc
     simp at hc
-    rcases hc with rfl | rfl <;> simp [demoCls, demoAssoc] at hd <;> rcases hd with rfl | rfl <;> first | rfl | (simp [tyReference] at hty)
+    rcases hc with rfl | rfl
+    · refine ⟨?_, ?_⟩
+      · intro d hd hty; simp [demoCls] at hd; rcases hd with rfl | rfl <;> exact absurd hty (by decide)
+      · intro d hd q; simp [demoCls] at hd; rcases hd with rfl | rfl <;> simp
+    · refine ⟨?_, ?_⟩
+      · intro d hd _; simp [demoAssoc] at hd; rcases hd with rfl | rfl <;> rfl
+      · intro d hd q; simp [demoAssoc] at hd; rcases hd with rfl | rfl <;> simp
+  · intro e1 he1 e2 he2 n c1 c2 h1 h2
+    rw [hmem e1 he1] at h1; rw [hmem e2 he2] at h2
+    rw [h1] at h2; cases h2; rfl
   · intro op hop
     simp at hop; subst hop
-    refine ⟨?_, by decide⟩
-    intro p hp _
-    simp [demoCreateAssoc] at hp
-    rcases hp with rfl | rfl <;> exact Or.inr ⟨_, rfl⟩
+    refine ⟨?_, ?_⟩
+    · intro p hp _
+      simp [demoCreateAssoc] at hp
+      rcases hp with rfl | rfl <;> exact Or.inr ⟨_, rfl⟩
+    · intro p hp _
+      simp [demoCreateAssoc] at hp
+      rcases hp with rfl | rfl <;> rfl
+
+/-! ### an incoherent schema (witness) -/
+
+def wP : Cls :=
+  { name := "P".toList, super := none, isAssoc := false,
+    props := [{ name := "n".toList, ty := "string".toList, isArr := false, isKey := true, dflt := .null }] }
+def wL (extra : Bool) : Cls :=
+  { name := "L".toList, super := none, isAssoc := true,
+    props := [{ name := "a".toList, ty := "reference".toList, isArr := false, isKey := true, dflt := .null }] ++
+             (if extra then [{ name := "k".toList, ty := "string".toList, isArr := false, isKey := true, dflt := .null }] else []) }
+/-- namespace B declares the association class with an additional key property: an incoherent schema -/
+def wRepo : Repo :=
+  { nss := [{ name := "A".toList, classes := [wP, wL false], insts := [] },
+            { name := "B".toList, classes := [wP, wL true], insts := [] }], dflt := "A".toList }
+def wEnd : Path0 := { cls := "P".toList, ns := some "B".toList, host := none, keys := [("n".toList, Scalar.str "x".toList)] }
+def wLPath : Path :=
+  { cls := "L".toList, ns := some "B".toList, host := none, keys := [("a".toList, KV.ref wEnd)] }
+def wOps : List Op :=
+  [ .create (some "B".toList) { cls := "P".toList, props := [{ name := "n".toList, ty := "string".toList, isArr := false, val := Val.one (KV.sc (Scalar.str "x".toList)) }] },
+    .create none { cls := "L".toList, props := [{ name := "a".toList, ty := "reference".toList, isArr := false, val := Val.one (KV.ref wEnd) }] },
+    .modify wLPath { cls := "L".toList, props := [{ name := "k".toList, ty := "string".toList, isArr := false, val := Val.one (KV.sc (Scalar.str "v".toList)) }] } none ]
+
+/-- **The coherence hypothesis is needed.**  With an association class that namespace B declares with an additional
+    key property, the copy of a multi-namespace instance stored in B lacks that property; ModifyInstance naming it
+    makes the code (and the model) raise KeyError where the reference map answers INVALID_PARAMETER
+    (known finding C10-KF1, probed on the real code by K on every run). -/
+theorem C10_refines_spec_fails_for_incoherent_schema :
+    (Pywbem.Model.Store.run wRepo wOps).2.map normOut ≠ (Pywbem.Model.StoreSpec.run (abs wRepo) wOps).2 := by
+  decide +kernel
 
 /-- **Enumerations never fail on a stored instance.**  In every state satisfying the store invariant,
     EnumerateInstances answers INVALID_NAMESPACE, INVALID_CLASS or a list – never NOT_FOUND (the failure the
@@ -210,19 +257,18 @@ theorem C10_get_case_insensitive (r : Repo) (p q : Path) (pl : Option (List Name
   | none => rfl
   | some e => simp only [findCls_congr e.classes hcls]
 
-/-! ### the map laws -/
+/-! ### the map laws (stated for schemas without association classes) -/
 
-/-- **Get after Create.**  After a successful CreateInstance (hypothesis `Tame` on that request: no association
-    classes, or reference values inside the request namespace), GetInstance on the returned path answers the
-    created instance: same class name, the returned path, and the same properties (names up to lexical case –
-    they take the case of the class declaration –, types, arrayness and values unchanged), filtered by the
-    PropertyList. -/
+/-- **Get after Create.**  After a successful CreateInstance, GetInstance on the returned path answers the
+    created instance: same class name, the returned path, and the same properties (names up to lexical
+    case – they take the case of the class declaration –, types, arrayness and values unchanged), filtered
+    by the PropertyList. -/
 theorem C10_create_then_get_partial (r r' : Repo) (nsArg : Option Name) (inst : Inst) (p : Path)
-    (pl : Option (List Name)) (ht : Tame r (.create nsArg inst)) (h : stepCreate r nsArg inst = (r', .path p)) :
+    (pl : Option (List Name)) (hna : NoAssoc r) (h : stepCreate r nsArg inst = (r', .path p)) :
     ∃ ps, (stepGet r' p pl).2 = .inst { cls := inst.cls, path := p, props := filterProps pl ps } ∧
       ps.map (fun q => (lower q.name, q.ty, q.isArr, q.val)) =
         inst.props.map (fun q => (lower q.name, q.ty, q.isArr, q.val)) := by
-  obtain ⟨c, hc⟩ := get_after_create' pl ht h
+  obtain ⟨c, hc⟩ := get_after_create pl hna h
   refine ⟨adjustNames c inst.props, hc, ?_⟩
   unfold adjustNames
   rw [List.map_map]
@@ -231,47 +277,45 @@ theorem C10_create_then_get_partial (r r' : Repo) (nsArg : Option Name) (inst : 
   have := adjustName_same c q
   simp [Function.comp, this.1, this.2.1, this.2.2.1, this.2.2.2]
 
-/-- **Create twice.**  Repeating a successful CreateInstance is refused with ALREADY_EXISTS and changes nothing
-    (partial: schemas without association classes). -/
+/-- **Create twice.**  Repeating a successful CreateInstance is refused with ALREADY_EXISTS and changes nothing. -/
 theorem C10_create_twice_already_exists_partial (r r' : Repo) (nsArg : Option Name) (inst : Inst) (p : Path)
     (hna : NoAssoc r) (h : stepCreate r nsArg inst = (r', .path p)) :
     stepCreate r' nsArg inst = (r', errExists) :=
   create_twice hna h
 
-/-- **Get after Delete.**  After a successful DeleteInstance in a state satisfying the store invariant
-    (association instances reference their own namespace only), GetInstance on the same path answers NOT_FOUND. -/
+/-- **Get after Delete.**  After a successful DeleteInstance, GetInstance on the same path answers NOT_FOUND. -/
 theorem C10_delete_then_get_not_found_partial (r r' : Repo) (path : Path) (pl : Option (List Name))
-    (hinv : Inv r) (h : stepDelete r path = (r', .unit)) :
+    (hna : NoAssoc r) (h : stepDelete r path = (r', .unit)) :
     (stepGet r' path pl).2 = errNotFound :=
-  get_after_delete' pl hinv h
+  get_after_delete pl hna h
 
-/-- **Delete touches one key only** (same hypothesis).  GetInstance on any path with a different key – another
-    namespace, another class, other keybindings; compared in normal form – answers after the DeleteInstance what
-    it answered before. -/
-theorem C10_delete_frame_partial (r r' : Repo) (path q : Path) (pl : Option (List Name)) (hinv : Inv r)
+/-- **Delete touches one key only.**  GetInstance on any path with a different key – another namespace,
+    another class, other keybindings; compared in normal form – answers after the DeleteInstance what it
+    answered before. -/
+theorem C10_delete_frame_partial (r r' : Repo) (path q : Path) (pl : Option (List Name)) (hna : NoAssoc r)
     (h : stepDelete r path = (r', .unit))
     (hne : keyIn q (effNs r q.ns) ≠ keyIn path (effNs r path.ns)) :
     (stepGet r' q pl).2 = (stepGet r q pl).2 :=
-  get_frame_delete' pl hinv h hne
+  get_frame_delete pl hna h hne
 
 /-! ### only documented status codes -/
 
-/-- **Only documented errors (partial, hypothesis `TameRun` as above).**  Every outcome of every history
+/-- **Only documented errors (hypothesis `TameRun` as above).**  Every outcome of every history
     is a result, one of CIM_ERR_INVALID_NAMESPACE / INVALID_PARAMETER / INVALID_CLASS / NOT_FOUND /
     ALREADY_EXISTS – or `TypeError`, which by the next theorem needs an array- or embedded-object-valued
     property in a CreateInstance (it escapes only when that is a *key* property, which no valid schema declares). -/
-theorem C10_only_documented_errors_partial (r : Repo) (ops : List Op) (hf : Fresh r) (ht : TameRun r ops) :
+theorem C10_only_documented_errors (r : Repo) (ops : List Op) (hf : Fresh r) (ht : TameRun r ops) :
     ∀ o ∈ (Pywbem.Model.Store.run r ops).2, Documented o := by
   intro o ho
-  have h := (sim_run' ops r ht (inv_empty r hf.nsUniq hf.empty)).1
+  have h := (sim_run'' ops r ht (inv_empty r hf.nsUniq hf.empty)).1
   have : normOut o ∈ (Pywbem.Model.StoreSpec.run (abs r) ops).2 := by
     rw [← h]; exact List.mem_map_of_mem ho
   exact documented_normOut (srun_documented ops (abs r) _ this)
 
-theorem C10_type_error_needs_nonscalar_value_partial (r : Repo) (op : Op) (ht : Tame r op) (hinv : Inv r)
+theorem C10_type_error_needs_nonscalar_value (r : Repo) (op : Op) (ht : Tame r op) (hinv : Inv r)
     (h : (step r op).2 = .err .typeError) :
     ∃ ns inst, op = .create ns inst ∧ ∃ p ∈ inst.props, notScalar p.val = true := by
-  have hs := (sim_step' r op ht hinv).1
+  have hs := (sim_step'' r op ht hinv).1
   rw [h] at hs
   simp only [normOut] at hs
   cases op with
